@@ -927,6 +927,41 @@ fn structured(t: Tier) -> BoxedStrategy<Case> {
                 }
                 Base::Any(MAny::Index(i))
             }),
+        // valid range-mapping documents with long lines (dozens to hundreds of segments per line,
+        // range bits at and around the multiples of 8, 16, 32 and 64)
+        1 => (vec((1usize..4, prop_oneof![3 => 10usize..80, 1 => proptest::sample::select(vec![63usize, 64, 65, 66, 127, 128, 129, 130, 192, 193, 256, 257])], any::<u64>()), 1..4), any::<bool>())
+            .prop_map(|(lines, pad)| {
+                let mut doc_lines: Vec<Vec<crate::refimpl::v3::SegAbs>> = vec![];
+                let mut ranges: Vec<Vec<bool>> = vec![];
+                for (gap, n, bits) in lines {
+                    for _ in 1..gap {
+                        doc_lines.push(vec![]);
+                        ranges.push(vec![]);
+                    }
+                    doc_lines.push((0..n).map(|k| Some((k as u32 * 2, Some(crate::refimpl::v3::RefSrc { id: 0, line: k as u32, col: 0, name: None })))).collect());
+                    // the last one or two segments are ranges, plus a sprinkle chosen by `bits`
+                    ranges.push((0..n).map(|k| k + 1 == n || (k + 2 == n && bits & 1 == 1) || (bits >> (k % 60)) & 0xf == 0xf).collect());
+                }
+                let d = DocModel {
+                    lines: doc_lines,
+                    range_lines: Some(ranges),
+                    range_pad: u8::from(pad),
+                    version: K::Val(3),
+                    sources: K::Val(vec![Some("a.js".into())]),
+                    names: K::Val(vec![]),
+                    contents: K::Absent,
+                    root: K::Absent,
+                    file: K::Absent,
+                    ignore: K::Absent,
+                    debug_id: K::Absent,
+                    debug_id_new: K::Absent,
+                    fb_sources: None,
+                    style: JsonStyle::default(),
+                    unknown_keys: false,
+                    mappings_override: None,
+                };
+                Base::Doc(d)
+            }),
         1 => (1usize..140).prop_map(|n| Base::Bytes(deep_sections(n).into_bytes())),
     ]
     .prop_map(|base| Case { base, muts: vec![] })
